@@ -21,19 +21,22 @@
 (*                                                                         *)
 (* Terms are records of one uniform shape                                  *)
 (*   [k, nm, tc, n, p, d, sh, ix, fd, ops]                                 *)
-(*   k   kind: "coef" "const" "arg" "int" "float" "zero" "geo" "mi"        *)
-(*             "label" (terminals) or "op" (operator)                      *)
+(*   k   kind: "coef" "const" "arg" "int" "float" "floate" "cplx" "zero"   *)
+(*             "geo" "mi" "label" (terminals) or "op" (operator)           *)
 (*   nm  ufl class name                                                    *)
 (*   tc  the class's _ufl_typecode_ (constant TC, read from the real       *)
 (*       classes by the harness)                                           *)
 (*   n   count (coef, const, label) / number (arg) / value (int) /         *)
-(*       value*10 (float)                                                  *)
-(*   p   part of an argument (NonePart = no part)                          *)
-(*   d   ufl_id of the mesh (const, geo)                                   *)
+(*       signed decimal mantissa (float, real part of cplx: value =        *)
+(*       n / 10^p) / mantissa digit (floate: value = n * 10^(-p or +p))    *)
+(*   p   part of an argument (NonePart = no part) / number of fraction     *)
+(*       digits (float, cplx) / exponent magnitude (floate)                *)
+(*   d   ufl_id of the mesh (const, geo) / floate: 0 = "e-", 1 = "e+"      *)
 (*   sh  shape                                                             *)
 (*   ix  multi-index entries (mi) or free-index ids (zero): an entry < 10  *)
 (*       is FixedIndex(entry), an entry >= 10 is Index(count = entry-10)   *)
-(*   fd  free-index dimensions (zero)                                      *)
+(*   fd  free-index dimensions (zero) / cplx: <<mantissa, fraction digits>> *)
+(*       of the imaginary part                                             *)
 (*   ops operands (sequence of terms)                                      *)
 (***************************************************************************)
 EXTENDS Integers, Sequences, FiniteSets, TLC, Json, SequencesExt
@@ -49,6 +52,8 @@ CONSTANTS TC,          \* record: class name -> _ufl_typecode_ of the real class
                        \* lengths after / before the zip loop).  The harness probes the real
                        \* function and selects the transcription that matches the code under test.
           Big,         \* larger ExprList alphabet
+          Slice,       \* which part of the term universe: "main", or "repr" = the literals whose reprs
+                       \* exercise every way _cmp_terminal_by_repr decides (see PART 3)
           PrintTable   \* print universe and table (once per harness run)
 
 NonePart == -1
@@ -67,7 +72,14 @@ Const(cnt, dom, shape) == [Blank EXCEPT !.k = "const", !.nm = "Constant", !.tc =
 Arg(num, part)     == [Blank EXCEPT !.k = "arg", !.nm = "Argument", !.tc = TC.Argument,
                                     !.n = num, !.p = part]
 IntV(v)            == [Blank EXCEPT !.k = "int", !.nm = "IntValue", !.tc = TC.IntValue, !.n = v]
-FloatV(v10)        == [Blank EXCEPT !.k = "float", !.nm = "FloatValue", !.tc = TC.FloatValue, !.n = v10]
+\* FloatValue(m / 10^q), written by python with exactly q fraction digits ("1.05" = FloatP(105, 2))
+FloatP(m, q)       == [Blank EXCEPT !.k = "float", !.nm = "FloatValue", !.tc = TC.FloatValue, !.n = m, !.p = q]
+FloatV(v10)        == FloatP(v10, 1)
+\* FloatValue(m * 10^-e) (up = 0, e >= 5) or FloatValue(m * 10^e) (up = 1, e >= 16): python's exponent format
+FloatE(m, e, up)   == [Blank EXCEPT !.k = "floate", !.nm = "FloatValue", !.tc = TC.FloatValue, !.n = m, !.p = e, !.d = up]
+\* ComplexValue(rm / 10^rq + (im / 10^iq) j)
+Cplx(rm, rq, im, iq) == [Blank EXCEPT !.k = "cplx", !.nm = "ComplexValue", !.tc = TC.ComplexValue,
+                                    !.n = rm, !.p = rq, !.fd = <<im, iq>>]
 ZeroV(shape, fi, dims) == [Blank EXCEPT !.k = "zero", !.nm = "Zero", !.tc = TC.Zero,
                                     !.sh = shape, !.ix = fi, !.fd = dims]
 Geo(name, code, dom) == [Blank EXCEPT !.k = "geo", !.nm = name, !.tc = code, !.d = dom]
@@ -118,7 +130,8 @@ CoefCmp(x, y) == IF x.n < y.n THEN -1 ELSE IF x.n > y.n THEN 1 ELSE 0
 
 \* ---- model of __repr__ (character codes); the class-name prefix and the element repr are
 \* ---- common to all terms of one type code and are represented by one stand-in character.
-LP == 40  RP == 41  CM == 44  SPC == 32  DOT == 46  MINUS == 45
+LP == 40  RP == 41  CM == 44  SPC == 32  DOT == 46  MINUS == 45  PLUS == 43  LE == 101  LJ == 106
+AbsI(m) == IF m < 0 THEN 0 - m ELSE m
 RECURSIVE DecNat(_)
 DecNat(m) == IF m < 10 THEN <<48 + m>> ELSE DecNat(m \div 10) \o <<48 + (m % 10)>>
 Dec(m) == IF m < 0 THEN <<MINUS>> \o DecNat(0 - m) ELSE DecNat(m)
@@ -127,12 +140,19 @@ CommaJoin(s) == IF Len(s) = 1 THEN Dec(s[1]) ELSE Dec(s[1]) \o <<CM, SPC>> \o Co
 PyTuple(s) == IF Len(s) = 0 THEN <<LP, RP>>
               ELSE IF Len(s) = 1 THEN <<LP>> \o Dec(s[1]) \o <<CM, RP>>
               ELSE <<LP>> \o CommaJoin(s) \o <<RP>>
+\* python's repr of a float with q fraction digits: the fraction is padded with zeros to q digits
+RECURSIVE PadNat(_, _)
+PadNat(v, q) == IF q = 0 THEN << >> ELSE PadNat(v \div 10, q - 1) \o <<48 + (v % 10)>>
+Frac(m, q) == (IF m < 0 THEN <<MINUS>> ELSE << >>) \o DecNat(AbsI(m) \div (10 ^ q)) \o <<DOT>> \o PadNat(AbsI(m) % (10 ^ q), q)
 ReprMesh(d) == <<77>> \o <<CM, SPC>> \o Dec(d) \o <<RP>>            \* Mesh(<element>, <ufl_id>)
 Counts(ix) == [i \in 1..Len(ix) |-> ix[i] - 10]
 Repr(t) ==
   CASE t.k = "const" -> ReprMesh(t.d) \o <<CM, SPC>> \o PyTuple(t.sh) \o <<CM, SPC>> \o Dec(t.n) \o <<RP>>
     [] t.k = "int"   -> Dec(t.n) \o <<RP>>
-    [] t.k = "float" -> Dec(t.n \div 10) \o <<DOT>> \o Dec(t.n % 10) \o <<RP>>
+    [] t.k = "float" -> Frac(t.n, t.p) \o <<RP>>
+    [] t.k = "floate" -> DecNat(t.n) \o <<LE, IF t.d = 1 THEN PLUS ELSE MINUS>> \o PadNat(t.p, 2) \o <<RP>>
+    [] t.k = "cplx"  -> <<LP>> \o Frac(t.n, t.p) \o <<IF t.fd[1] < 0 THEN MINUS ELSE PLUS>>
+                        \o Frac(AbsI(t.fd[1]), t.fd[2]) \o <<LJ, RP, RP>>
     [] t.k = "zero"  -> PyTuple(t.sh) \o <<CM, SPC>> \o PyTuple(Counts(t.ix)) \o <<CM, SPC>> \o PyTuple(t.fd) \o <<RP>>
     [] t.k = "geo"   -> ReprMesh(t.d) \o <<RP>>
     [] OTHER         -> << >>
@@ -152,6 +172,8 @@ LexCmp(s, t) ==
 \* character and ordered by value), so the natural order is the lexicographic order of the keys
 \* (a number against a character means the text of the first string ended earlier: smaller).
 DecK(m) == IF m < 0 THEN <<MINUS, (0 - m) - 10000000>> ELSE <<m - 10000000>>
+\* the digit run of the fraction is ONE number: its zero padding is invisible in the key ("1.05" ~ "1.5")
+FracK(m, q) == (IF m < 0 THEN <<MINUS>> ELSE << >>) \o <<(AbsI(m) \div (10 ^ q)) - 10000000, DOT, (AbsI(m) % (10 ^ q)) - 10000000>>
 RECURSIVE CommaJoinK(_)
 CommaJoinK(s) == IF Len(s) = 1 THEN DecK(s[1]) ELSE DecK(s[1]) \o <<CM, SPC>> \o CommaJoinK(Tail(s))
 PyTupleK(s) == IF Len(s) = 0 THEN <<LP, RP>>
@@ -161,10 +183,21 @@ KeyMesh(d) == <<77>> \o <<CM, SPC>> \o DecK(d) \o <<RP>>
 ReprKey(t) ==
   CASE t.k = "const" -> KeyMesh(t.d) \o <<CM, SPC>> \o PyTupleK(t.sh) \o <<CM, SPC>> \o DecK(t.n) \o <<RP>>
     [] t.k = "int"   -> DecK(t.n) \o <<RP>>
-    [] t.k = "float" -> DecK(t.n \div 10) \o <<DOT>> \o DecK(t.n % 10) \o <<RP>>
+    [] t.k = "float" -> FracK(t.n, t.p) \o <<RP>>
+    [] t.k = "floate" -> DecK(t.n) \o <<LE, IF t.d = 1 THEN PLUS ELSE MINUS>> \o DecK(t.p) \o <<RP>>
+    [] t.k = "cplx"  -> <<LP>> \o FracK(t.n, t.p) \o <<IF t.fd[1] < 0 THEN MINUS ELSE PLUS>>
+                        \o FracK(AbsI(t.fd[1]), t.fd[2]) \o <<LJ, RP, RP>>
     [] t.k = "zero"  -> PyTupleK(t.sh) \o <<CM, SPC>> \o PyTupleK(Counts(t.ix)) \o <<CM, SPC>> \o PyTupleK(t.fd) \o <<RP>>
     [] t.k = "geo"   -> KeyMesh(t.d) \o <<RP>>
     [] OTHER         -> << >>
+
+\* _cmp_terminal_by_repr.  "natural": `if kx != ky: return -1 if kx < ky else 1`, then the plain strings break
+\* the tie of two different reprs with one key (branch "repr-tie": they differ in the zero padding of a digit run)
+ReprCmp(x, y) ==
+  LET kc == IF ReprRule = "natural" THEN LexCmp(ReprKey(x), ReprKey(y)) ELSE 0
+      sc == LexCmp(Repr(x), Repr(y))
+  IN IF kc # 0 THEN [c |-> kc, br |-> "repr"]
+     ELSE [c |-> sc, br |-> IF ReprRule = "natural" THEN "repr-tie" ELSE "repr"]
 
 \* the dispatch `if x in _terminal_cmps: ... else _cmp_terminal_by_repr`
 TermCmp(x, y) ==
@@ -172,7 +205,7 @@ TermCmp(x, y) ==
   ELSE IF x.tc = TC.Argument    THEN [c |-> ArgCmp(x, y),         br |-> "argument"]
   ELSE IF x.tc = TC.Coefficient THEN [c |-> CoefCmp(x, y),        br |-> "coefficient"]
   ELSE IF x.tc = TC.Label       THEN [c |-> 0,                    br |-> "label"]
-  ELSE                               [c |-> IF ReprRule = "natural" THEN (IF LexCmp(ReprKey(x), ReprKey(y)) # 0 THEN LexCmp(ReprKey(x), ReprKey(y)) ELSE LexCmp(Repr(x), Repr(y))) ELSE LexCmp(Repr(x), Repr(y)), br |-> "repr"]
+  ELSE                               ReprCmp(x, y)
 
 ----------------------------------------------------------------------------
 (* PART 1b.  The loop of cmp_expr, as coded.  A loop state is              *)
@@ -273,7 +306,27 @@ RECURSIVE MiOK(_)
 MiOK(t) == /\ (t.k = "mi" => Len(t.ix) \in MILens)
            /\ \A i \in 1..Len(t.ops) : MiOK(t.ops[i])
 
-Universe == {t \in Terminals \cup Indexeds \cup Variables \cup Divisions \cup Unaries \cup ExprLists \cup Deep : MiOK(t)}
+MainUniverse == {t \in Terminals \cup Indexeds \cup Variables \cup Divisions \cup Unaries \cup ExprLists \cup Deep : MiOK(t)}
+
+\* ---- slice "repr": literals compared by _cmp_terminal_by_repr.  Their reprs cover: digit runs that differ
+\* ---- in value with equal / different numbers of digits (natural and string order disagree: 1.5 / 1.25,
+\* ---- 2.5 / 10.5), a sign against a digit, text against text ("." / "e-" / "e+", "+" / "-"), and reprs that
+\* ---- differ ONLY in the zero padding of a digit run (1.5 / 1.05 / 1.005, 2.25 / 2.025, 0.5 / 0.05,
+\* ---- -1.5 / -1.05, complex parts): the natural keys tie and the plain strings decide.  The exponent format
+\* ---- pads too (1e-05) but never produces two reprs with one key.
+F15 == FloatP(15, 1)      F105 == FloatP(105, 2)
+ReprFloats == {F15, F105, FloatP(1005, 3), FloatP(125, 2), FloatP(25, 1), FloatP(105, 1),
+               FloatP(225, 2), FloatP(2025, 3), FloatP(-15, 1), FloatP(-105, 2), FloatP(5, 1), FloatP(5, 2), FloatP(10, 1)}
+              \cup (IF Big THEN {FloatP(10005, 4), FloatP(205, 2), FloatP(25, 2), FloatP(-1005, 3), FloatP(1005, 2)} ELSE {})
+ReprExps   == {FloatE(1, 5, 0), FloatE(2, 5, 0), FloatE(1, 15, 0), FloatE(1, 16, 1)}
+ReprCplx   == {Cplx(15, 1, 25, 1), Cplx(15, 1, 205, 2), Cplx(105, 2, 25, 1), Cplx(15, 1, -205, 2)}
+              \cup (IF Big THEN {Cplx(-15, 1, 25, 1), Cplx(-105, 2, 25, 1), Cplx(15, 1, -25, 1)} ELSE {})
+ReprTerminals == ReprFloats \cup ReprExps \cup ReprCplx \cup {i2, IntV(10), IntV(-1), IntV(-10), c7, c10, f3}
+ReprOps == {Op("Division", TC.Division, q) : q \in {<<f3, F15>>, <<f3, F105>>, <<F15, f3>>, <<F105, f3>>}}
+           \cup {Op("ExprList", TC.ExprList, q) : q \in {<<F105>>, <<F15, F105>>, <<F105, F15>>, <<F15, F15>>}}
+ReprUniverse == ReprTerminals \cup ReprOps
+
+Universe == IF Slice = "repr" THEN ReprUniverse ELSE MainUniverse
 USeq == SetToSeq(Universe)
 N == Len(USeq)
 
@@ -336,9 +389,18 @@ EqCongruence     == Chosen => (Cmp(a, b) = 0 => Cmp(a, c) = Cmp(b, c))
 
 \* preconditions of the universe: counted terminals are told apart by their counts, and no
 \* argument pair makes python compare None with an int
-ASSUME \A x \in Terminals : \A y \in Terminals :
+ASSUME \A x \in Terminals \cup ReprTerminals : \A y \in Terminals \cup ReprTerminals :
           /\ (x.k = "coef" /\ y.k = "coef" /\ x.n = y.n => x = y)
           /\ (x.k = "arg" /\ y.k = "arg" => ArgCmp(x, y) # Raise)
+\* preconditions of the repr model of the literals: python writes a float positionally with exactly q
+\* fraction digits iff the last one is not 0 (or q = 1) and 1e-4 <= |value| < 1e16; a zero value is Zero;
+\* the parts of a complex value are written without ".0", so both have a fraction here
+DecimalOK(m, q) == /\ q >= 1 /\ m # 0 /\ (q = 1 \/ AbsI(m) % 10 # 0) /\ AbsI(m) * 10000 >= 10 ^ q
+ASSUME \A t \in Terminals \cup ReprTerminals :
+          /\ (t.k = "float" => DecimalOK(t.n, t.p))
+          /\ (t.k = "floate" => t.n \in 1..9 /\ t.d \in {0, 1} /\ t.p <= 99 /\ (IF t.d = 1 THEN t.p >= 16 ELSE t.p >= 5))
+          /\ (t.k = "cplx" => /\ DecimalOK(t.n, t.p) /\ DecimalOK(t.fd[1], t.fd[2])
+                              /\ AbsI(t.n) % (10 ^ t.p) # 0 /\ AbsI(t.fd[1]) % (10 ^ t.fd[2]) # 0)
 ASSUME N = Cardinality(Universe)
 
 ASSUME PrintTable => PrintT(ToJson([universe |-> USeq, table |-> TableSeq]))
